@@ -364,7 +364,13 @@ class BuiltinMixin:
         return TV("int", z3.If(i >= 0, i, -i))
 
     def bi_abspath(self, args, kw, n, frame):
-        return TV("str", core.py_abspath(self.as_str(args[0])))
+        t = core.py_abspath(self.as_str(args[0]))
+        f = core.py_abspath(t) == t  # abspath is idempotent (A-ABSPATH)
+        if self.in_spec and self.spec_side is not None:
+            self.spec_side.append(f)
+        else:
+            self.assume(f)
+        return TV("str", t)
 
     bi_os_path_abspath = bi_abspath
 
